@@ -133,3 +133,92 @@ Section HdrGen.
     apply (hdr_pieces_ok user (ir_hdr ir) (s_name s) (s_generics s)); assumption.
   Qed.
 End HdrGen.
+
+(** ** ... and of every impl built from an enum *)
+Lemma enum_entry_hdr en h vs e ir :
+  enum_entry en h vs e = Ok (Ok [ir]) ->
+  (ih_generics (ir_hdr ir) = e_generics en \/
+   ih_generics (ir_hdr ir) = expand_self_generics (this_ty_of (e_name en) (e_generics en)) (e_generics en)) /\
+  ih_this (ir_hdr ir) = this_ty_of (e_name en) (e_generics en).
+Proof.
+  unfold enum_entry. destruct (en_kind e) eqn:Ek; try discriminate; intros X; inversion X as [Hb]; clear X.
+  - revert Hb. unfold build_compare_op. cbv zeta. destruct (entry_push_bounds_to_with _ _ _ _) as [w ub].
+    destruct (build_from_variants _ _ _ _) as [[l w']| |]; cbn [bind]; try discriminate.
+    intros X; inversion X; subst. cbn. destruct o; cbn; split; auto.
+  - revert Hb. unfold build_copy_for_enum. cbv zeta. destruct (entry_push_bounds_to _ _) as [w ub].
+    intros X; inversion X; subst. cbn; split; auto.
+  - revert Hb. unfold build_clone_for_enum. cbv zeta. destruct (entry_push_bounds_to _ _) as [w ub].
+    intros X; inversion X; subst. cbn; split; auto.
+  - revert Hb. unfold build_debug_for_enum. cbv zeta. destruct (entry_push_bounds_to_with _ _ _ _) as [w ub].
+    destruct (debug_arms _ _ _) as [[l w']| |]; cbn [bind]; try discriminate.
+    intros X; inversion X; subst. cbn; split; auto.
+  - revert Hb. unfold build_default_for_enum. cbv zeta. destruct (entry_push_bounds_to_with _ _ _ _) as [w ub].
+    match goal with |- bind ?m _ = _ -> _ => destruct m as [[b w']| |] end; cbn [bind]; try discriminate.
+    intros X; inversion X; subst. cbn; split; auto.
+Qed.
+
+Section HdrGenEnum.
+  Variable user : tok -> Prop.
+  Notation bok := (bounds_okS user).
+  Definition ventry_hdr_okS (v : ventry) : Prop :=
+    hattrs_bounds_okS user (ve_hattrs v) /\ Forall (fentry_hdr_okS user) (ve_fields v).
+
+  Lemma enum_plan_okS k fp sel vs :
+    (forall fs f, In f (sel fs) -> In f fs) ->
+    (forall f, fentry_hdr_okS user f -> fplan_okS user (fp f)) ->
+    Forall ventry_hdr_okS vs -> Forall (vplan_okS user) (enum_plan k fp sel vs).
+  Proof.
+    intros Hsel Hfp Hv. unfold enum_plan. apply Forall_forall. intros x Hx. apply in_map_iff in Hx as (v & <- & Hin).
+    rewrite Forall_forall in Hv. destruct (Hv v Hin) as [Hh Hf]. split; cbn [vp_levels vp_fields].
+    - now apply position_levels_okS.
+    - apply Forall_forall. intros y Hy. apply in_map_iff in Hy as (f & <- & Hf'). apply Hfp.
+      rewrite Forall_forall in Hf. apply Hf. now apply Hsel.
+  Qed.
+
+  Lemma enum_vplans_okS k h vs vp :
+    Forall ventry_hdr_okS vs -> enum_vplans k h vs = Some vp -> Forall (vplan_okS user) vp.
+  Proof.
+    intros Hv. unfold enum_vplans. destruct k as [o|o|o|o| | | | | | ]; try discriminate; intros X; inversion X; subst; clear X.
+    - apply enum_plan_okS; [|intros f; apply fplan_cmp_okS|exact Hv].
+      intros fs f Hin. unfold cmp_used_fields in Hin. apply filter_In in Hin. tauto.
+    - apply enum_plan_okS; [auto|intros f; apply fplan_all_okS|exact Hv].
+    - apply enum_plan_okS; [auto|intros f; apply fplan_all_okS|exact Hv].
+    - apply enum_plan_okS; [|intros f; apply fplan_all_okS|exact Hv].
+      intros fs f Hin. unfold debug_fields in Hin. destruct (find _ fs) as [g|] eqn:E.
+      + destruct Hin as [<-|[]]. apply find_some in E. tauto.
+      + apply filter_In in Hin. tauto.
+    - revert H0. destruct (has_default_value h); [intros X; inversion X; constructor|].
+      destruct (default_variant vs) as [v|] eqn:E; cbn; [|discriminate]. intros X; inversion X; subst.
+      assert (In v vs) as Hin.
+      { unfold default_variant in E. destruct (filter is_marked_default vs) as [|a [|b l]] eqn:Ef.
+        - destruct vs as [|v0 [|]]; try discriminate. inversion E; subst. now left.
+        - inversion E; subst. assert (In v (filter is_marked_default vs)) as H by (rewrite Ef; now left).
+          apply filter_In in H. tauto.
+        - discriminate. }
+      rewrite Forall_forall in Hv. destruct (Hv v Hin) as [Hh Hf]. constructor; [|constructor].
+      unfold default_vplan. split; cbn [vp_levels vp_fields]; [now apply position_levels_okS|].
+      apply Forall_forall. intros y Hy. apply in_map_iff in Hy as (f & <- & Hf'). apply fplan_default_okS.
+      rewrite Forall_forall in Hf. now apply Hf.
+  Qed.
+
+  Theorem enum_hdr_ok en h vs e ir :
+    oknm user (e_name en) -> generics_okS user (e_generics en) ->
+    ha_items h = [] -> hattrs_bounds_okS user h -> entry_okS user e -> Forall ventry_hdr_okS vs ->
+    enum_entry en h vs e = Ok (Ok [ir]) ->
+    hdr_ok user (ir_hdr ir).
+  Proof.
+    intros Hn Hg Hi Hh [He1 He2] Hv Hb.
+    destruct (enum_entry_hdr en h vs e ir Hb) as [Hgen Hthis].
+    destruct (enum_entry_where en h vs e ir Hi Hb) as (vp & Hvp & W). unfold where_is in W.
+    assert (generics_okS user (decl_generics (en_kind e) (e_name en) (e_generics en))) as Hdg.
+    { unfold decl_generics.
+      pose proof (expand_self_okS_generics user _ (this_ty_okS user _ _ Hn Hg) _ Hg) as Hx.
+      destruct (en_kind e) as [| | |[]| | | | | | ]; assumption. }
+    assert (Forall bok (top_levels (en_kind e) e h)) as Htop.
+    { unfold top_levels. apply Forall_app. split; [now apply helper_levels_okS|].
+      constructor; [exact He1|]. constructor; [exact He2|constructor]. }
+    destruct (spec_where_okS user _ _ _ Hdg Htop (enum_vplans_okS _ _ _ _ Hv Hvp)) as [R1 R2].
+    rewrite <- W in R1, R2. cbn [fst snd] in R1, R2.
+    apply (hdr_pieces_ok user (ir_hdr ir) (e_name en) (e_generics en)); assumption.
+  Qed.
+End HdrGenEnum.
